@@ -746,6 +746,22 @@ def gen_C15(rng, tier):
             for (es, ea) in USER_ELEMS:
                 cases.append("cast 1 %d %d %d %s" % (F, es, ea, hx(tagbytes(size))))
                 dist["dst"] += 1
+    # tag types aligned to 16 (more strictly than the structure they are cast from): sized with 2 / 6 words, DSTs of 16-byte
+    # elements; and tags of type 0 (the end-tag ID) with every size, cast to every type
+    for size in range(8, 97):
+        for tb in (tagbytes(size), tagbytes(size) + marker(16, start=size)):
+            cases.append("cast 2 2 16 %s" % hx(tb))
+            cases.append("cast 2 6 16 %s" % hx(tb))
+            cases.append("cast 1 0 16 16 %s" % hx(tb))
+            cases.append("cast 1 8 16 16 %s" % hx(tb))
+            dist["align16"] = dist.get("align16", 0) + 4
+    for size in range(0, 41):
+        tb = tagbytes(size, typ=0)
+        for k in (0, 1, 2):
+            cases.append("cast 0 %d %s" % (k, hx(tb)))
+        for (es, ea) in USER_ELEMS[:4]:
+            cases.append("cast 1 0 %d %d %s" % (es, ea, hx(tb)))
+        dist["type0_tags"] = dist.get("type0_tags", 0) + 7
     # built-in kinds x sizes around their fixed sizes (through the typed getters of a loaded region)
     if "mbi" in DOMAINS_READY:
         sizes_for = lambda fixed: sorted(set(list(range(8, 41)) + list(range(max(8, fixed - 9), fixed + 17)) + [fixed + 24, fixed + 48, fixed + 100]))
